@@ -460,6 +460,8 @@ class CParser(RecursiveDescentParser):
 
     def parse_function_declaration(self, decl_spec, declarator):
         """Parse a function declaration with implementation"""
+        if declarator.name is None:
+            self.error("Expected a declarator with a name before the body")
         function = self.semantics.on_function_declaration(
             decl_spec.storage_class,
             decl_spec.typ,
